@@ -128,7 +128,7 @@ def scenario(sim: Sim) -> None:
             sim.note(f"request ns={ns} cid={cid} {metric.name}")
             await req_tx.send(req)
 
-        for _ in range(ch.int_between("nevents", 60, 200)):
+        for _ in range(ch.int_between("nevents", 60, sim.scale(200, 500))):
             ek = ch.weighted("event", [12, 3, 1, 1])
             if ek == 0:
                 cid = cids[ch.draw("msg_cid", len(cids))]
